@@ -79,7 +79,7 @@ CHECKS['C15'] = dict(level='model_checking', ref='DESIGN.md 3.6, 6 (C15)',
         'The real recipes run on threads (shared / own Cache and FanoutCache objects) under the scheduler: all schedules up to 2 preemptions of 2-3 contender programs, PCT/random for 2-4 contenders, barrier, extra releases, and an RLock built before fork released by the child; witness events enter/exit are validated by TLC (LocksTrace.tla).',
    technique='TLA+ lock protocols model-checked by TLC (safety + liveness); scheduler-enumerated executions of the real recipes validated by TLC')
 CHECKS['C20'] = dict(level='model_checking', ref='DESIGN.md 3.6, 6 (C20)',
-   text='Design level: Throttle.tla models throttle as a token bucket on an integer grid (Arrive, Try = one transaction: refill, cap, start or sleep; urgent Tick) and TLC checks RateBound, TallyBounded and, under fairness, EventuallyThrough for 2-3 callers x 2-3 calls x counts 2/3; without the cap it must fail. '
+   text='Design level: Throttle.tla models throttle as a token bucket on an integer grid (Arrive, Try = one transaction: refill, cap, start or sleep; urgent Tick) and TLC checks RateBound, TallyBounded and, under fairness, EventuallyThrough for 2-3 callers x 2-3 calls x counts 2/3; without the cap it must fail; Averager.tla models add (one transaction: read the pair, write total+v, count+1), lock-free get and atomic pop for 3 clients and checks EveryAddCounted (the stored pair is the sum and number of the committed adds since the last pop) and termination; add without its block must fail. '
         'RecipesTrace.tla: every recorded pass of the real loop must be a Throttle!Try step (pair read = pair stored last; start / capped start / sleep and the stored tally or the sleep follow from it); Averager state (total,count): the pair published by each COMMIT of add must be (total+v, count+1) of the pair committed just before, pop resets, get/pop return a pair committed during the call; throttle: RateBound over the recorded start history (for all i<j: j-i+1 <= count + count/seconds*(t_j-t_i)) and every call let through. '
         'Averager programs of 2-3 adders/poppers/readers are scheduler-enumerated (threads, shared/own Cache); throttle runs 1-3 callers over burst / idle-then-burst / steady / random arrival patterns under a virtual clock (time_func/sleep_func) with rates 1/1, 2/1, 3/2, 1/2; TLC validates every run.',
    technique='TLA+ token-bucket model checked by TLC (safety + liveness) and bound to the code step by step; commit-level refinement for Averager (trace validation by TLC)')
@@ -103,7 +103,7 @@ CHECKS['C18'] = dict(level='exploration', ref='DESIGN.md 3.7, 6 (C18)',
    text='Lifecycle events as no-ops of the reference model: random histories (as C03) with close / reopen with and without settings / pickle+unpickle / settings read-back at random points, and single operations performed by a forked child, a second thread or a fresh interpreter, are validated by TLC against CacheSeqTrace (every handle acts on the one CacheOps state; settings come back from the directory). '
         'Format stability: a reference directory written once by the pinned version (every key representation x value mode, Disk and JSONDisk with a custom disk setting, non-default settings, a 3-shard FanoutCache with Deque and Index, a Deque, an Index) is committed with the digests of everything readable from it; the current tree reads a scratch copy and TLC compares (FixtureTrace.tla); shard routing is compared with a recorded table in C13.',
    technique='trace validation by TLC with lifecycle events as model no-ops; golden reference directory compared as a trace')
-NOTES = {'C18': SEQ_NOTE + ' The format part is a golden-file comparison (the only way to see changes that orphan existing caches); Deque/Index lifecycle is in C11/C12.', 'C02': 'Exact numeric identities of the universe are computed with rational arithmetic by the harness (TLC integers are 32-bit). NaN is outside the key domain.', 'C01': 'Values INSIDE an abstract case are sampled, not enumerated; equality is structural with NaN = NaN and signed zero / exact type distinguished. The read-handle accessor is applied to binary values only; JSONDisk to JSON-representable values.', 'C17': 'Trusted: the observer (plain SQL + os.walk), TLC. Damage combinations beyond pairs are sampled.', 'C16': SEQ_NOTE, 'C20': CONC_NOTE + ' The Averager half has no exhaustive design model of its own (its atomicity is C06). Start times are rounded outwards to 1/4000 s (sound for the bound); a virtual sleep advances time by at least 1e-6 s.', 'C15': CONC_NOTE + ' Contenders in separate processes only in the fork scenario.', 'C19': SEQ_NOTE + ' Return values the contract leaves open (set, delete_many, clear, delete of an expired item) are not compared.', 'C13': SEQ_NOTE + ' Aggregate operations under lock timeouts (FanoutCache._remove resuming after Timeout) are only covered with one shard (C14).', 'C11': CONC_NOTE, 'C12': CONC_NOTE + '', 'C14': CONC_NOTE, 'C07': 'Trusted: SQLite atomic commit / WAL recovery and release of the write lock on process death; kill points are the boundary events of the victim (before each statement, file create/write/close/remove, directory create/remove); the lazy cull of writes is switched off in kill workloads (not observable per call). Deque/Index workloads are killed in C11/C12.', 'C08': CONC_NOTE + ' Faults are not injected into COMMIT/ROLLBACK (SQLite atomic commit trusted) nor into file removal (removing an existing file is assumed to succeed).', 'C05': CONC_NOTE, 'C06': CONC_NOTE, 'C03': SEQ_NOTE, 'C04': SEQ_NOTE, 'C09': SEQ_NOTE, 'C10': SEQ_NOTE}
+NOTES = {'C18': SEQ_NOTE + ' The format part is a golden-file comparison (the only way to see changes that orphan existing caches); Deque/Index lifecycle is in C11/C12.', 'C02': 'Exact numeric identities of the universe are computed with rational arithmetic by the harness (TLC integers are 32-bit). NaN is outside the key domain.', 'C01': 'Values INSIDE an abstract case are sampled, not enumerated; equality is structural with NaN = NaN and signed zero / exact type distinguished. The read-handle accessor is applied to binary values only; JSONDisk to JSON-representable values.', 'C17': 'Trusted: the observer (plain SQL + os.walk), TLC. Damage combinations beyond pairs are sampled.', 'C16': SEQ_NOTE, 'C20': CONC_NOTE + ' Start times are rounded outwards to 1/4000 s (sound for the bound); a virtual sleep advances time by at least 1e-6 s.', 'C15': CONC_NOTE + ' Contenders in separate processes only in the fork scenario.', 'C19': SEQ_NOTE + ' Return values the contract leaves open (set, delete_many, clear, delete of an expired item) are not compared.', 'C13': SEQ_NOTE + ' Aggregate operations under lock timeouts (FanoutCache._remove resuming after Timeout) are only covered with one shard (C14).', 'C11': CONC_NOTE, 'C12': CONC_NOTE + '', 'C14': CONC_NOTE, 'C07': 'Trusted: SQLite atomic commit / WAL recovery and release of the write lock on process death; kill points are the boundary events of the victim (before each statement, file create/write/close/remove, directory create/remove); the lazy cull of writes is switched off in kill workloads (not observable per call). Deque/Index workloads are killed in C11/C12.', 'C08': CONC_NOTE + ' Faults are not injected into COMMIT/ROLLBACK (SQLite atomic commit trusted) nor into file removal (removing an existing file is assumed to succeed).', 'C05': CONC_NOTE, 'C06': CONC_NOTE, 'C03': SEQ_NOTE, 'C04': SEQ_NOTE, 'C09': SEQ_NOTE, 'C10': SEQ_NOTE}
 
 checks = []
 for pid, c in sorted(CHECKS.items()):
